@@ -48,7 +48,12 @@ RULE = ("A case is a loop nest plus a collection configuration. Part 'kernels': 
         "a.project(k -> mul*k+off, interval, start_pos, rank_id)) at the leaf rank, optionally "
         "below one plain outer loop (1-3 instances with their own operands), leaf fibers with explicit zeros or no "
         "element at all, a destination that may be pre-populated (explicit zeros too) and shared between the "
-        "instances, and a body plan (+=, <<= v, <<= 0, leave alone) per offered coordinate. Configuration: an order of "
+        "instances, and a body plan (+=, <<= v, <<= 0, leave alone) per offered coordinate. Part 'flattened': the same "
+        "operators (without project) at rank N below plain loops over an operand A[(X,) M, K, N] whose ranks M, K were "
+        "flattened (Tensor.flattenRanks(depth 0 or 1, levels=1): tuple coordinates (m, k)), the flattened rank renamed "
+        "'MK' with setRankIds and its shape registered with Metrics.associateShape((M, K)); every point column of the "
+        "flattened rank -- in its own iter rows and as outer coordinate of the rows of rank N -- must be the row-major "
+        "integer m*K + k. Configuration: an order of "
         "the flush thresholds {2,3,5,1000}, 0-n loop ranks registered up front, consumable traces drained at the end "
         "or after every outermost body. Every session registers iter and the labels 0-5 of intersect_, populate_, "
         "populate_read_, populate_write_, project_ on every loop rank (and on a project's source rank); the first "
@@ -91,6 +96,9 @@ ASSUMPTIONS = ["operands, destinations and the output are built / tiled / swizzl
                "completeness",
                "follower probes of a leader-follower intersection for a coordinate the follower does not store: "
                "the row must exist, its position is not asserted (there is no element)",
+               "tuple coordinates occur only in part 'flattened': one flattened rank (levels=1) that is iterated by a "
+               "plain loop, renamed to a plain string and registered with Metrics.associateShape before the nest; the "
+               "integer form of (m, k) within shape (M, K) is row-major, m*K + k (test_metrics.py::test_associate_shape)",
                "the harness restores the import-time values of the Metrics class attributes at the start of every "
                "case"]
 
@@ -435,9 +443,18 @@ class OpProgram:
             self.traced.append("K")
             self.noprereg.add("M")
 
+    def _a(self, i):
+        return self.a[i].getRoot()
+
+    def _b(self, i):
+        return self.b[i].getRoot()
+
+    def _plan(self, i):
+        return self.nest["inst"][i].get("plan", [])
+
     def _source(self, i):
-        a = self.a[i].getRoot()
-        b = self.b[i].getRoot()
+        a = self._a(i)
+        b = self._b(i)
         op = self.op
         if op in ("iter", "lshift"):
             return a, ["fiber", "a"]
@@ -469,12 +486,12 @@ class OpProgram:
 
     def _instance(self, i, prefix, log, on_body=None):
         src, expr = self._source(i)
-        a = self.a[i].getRoot()
-        b = self.b[i].getRoot()
+        a = self._a(i)
+        b = self._b(i)
         entry = {"rank": self.inner, "level": len(prefix), "prefix": list(prefix),
                  "expr": ["lshift", expr] if self.has_z else expr,
                  "fibers": {"a": snap_fiber(a), "b": snap_fiber(b)}, "z": None, "bodies": [], "outcomes": []}
-        plan = self.nest["inst"][i].get("plan", [])
+        plan = self._plan(i)
         if self.has_z:
             z = self.z[i].getRoot()
             entry["z"] = {"coords": list(z.coords), "compressed": True}
@@ -497,6 +514,96 @@ class OpProgram:
                 entry["outcomes"].append(["leaf", Payload.get(z_ref) != 0])
             if on_body is not None:
                 on_body()
+
+
+# -- nests below a flattened rank (tuple coordinates) ---------------------------
+#
+#   {"op": "iter" | "and" | "lf" | "lshift" | "lshift_and" | "lshift_lf", "shape": S,   # S = shape of rank N
+#    "flat": {"depth": 0 | 1, "shape": [(X,) M, K], "tree": nested tree of A[(X,) M, K, N]},
+#    "inst": [{"b": [[c, v], ...], "plan": [...]}, ...],      # used cyclically, one per N fiber visited
+#    "z": [[c, v], ...], "z_shared": bool}
+#
+# A is flattened with Tensor.flattenRanks(depth, levels=1): ranks (X,) MK, N; the coordinates of MK
+# are tuples (m, k).  The flattened rank gets the plain id "MK" (setRankIds) and its shape is
+# registered with Metrics.associateShape, as test_metrics.py::test_associate_shape does.  The
+# loops above N are plain ``for c, sub in fiber`` loops, the operator sits at rank N.
+
+
+def linearise(coord, shape):
+    """Row-major integer form of a tuple coordinate within `shape` (what associateShape documents:
+    the tuple flattened into one integer coordinate)."""
+    v = 0
+    for c, n in zip(coord, shape):
+        v = v * n + c
+    return v
+
+
+class FlatProgram(OpProgram):
+    def __init__(self, nest):
+        assert not Metrics.isCollecting()
+        self.nest = nest
+        self.op = nest["op"]
+        self.proj = None
+        self.has_z = self.op.startswith("lshift")
+        self.inner = "N"
+        flat = nest["flat"]
+        S = nest["shape"]
+        upper = (["X"] if flat["depth"] else []) + ["M", "K"]
+        a = K.build_operand({"rank_ids": upper + ["N"], "shape": list(flat["shape"]) + [S], "default": 0,
+                             "tree": flat["tree"], "auth": True}, name="A")
+        a = a.flattenRanks(depth=flat["depth"], levels=1)
+        self.order = (["X"] if flat["depth"] else []) + ["MK", "N"]
+        a.setRankIds(list(self.order))
+        self.A = a
+        self.flat = {"MK": list(flat["shape"][-2:])}
+        self.assoc = [["MK", list(flat["shape"][-2:])]]
+
+        def count(f, d):
+            return len(f.coords) if d == 1 else sum(count(p, d - 1) for p in f.payloads)
+
+        ninst = count(a.getRoot(), len(self.order) - 1)
+        insts = nest["inst"]
+        self.b = [_leaf_tensor("N", S, insts[i % len(insts)].get("b", []), "B") for i in range(ninst)]
+        self.plans = [insts[i % len(insts)].get("plan", []) for i in range(ninst)]
+        if self.has_z:
+            nz = 1 if nest.get("z_shared", True) else ninst
+            zs = [_leaf_tensor("N", S, nest.get("z", []), "Z") for _ in range(nz)]
+            self.z = [zs[i % nz] for i in range(ninst)] if nz else []
+        self.levels = {r: i for i, r in enumerate(self.order)}
+        self.traced = list(self.order)
+        self.noprereg = set()
+        self.cur_a = None
+        self.count = 0
+
+    def _a(self, i):
+        return self.cur_a
+
+    def _plan(self, i):
+        return self.plans[i]
+
+    def run(self, log, on_outer_body):
+        self.count = 0
+
+        def loop(f, level, prefix):
+            entry = {"rank": self.order[level], "level": level, "prefix": list(prefix), "expr": ["fiber", "d"],
+                     "fibers": {"d": snap_fiber(f)}, "z": None, "bodies": [], "outcomes": []}
+            log.append(entry)
+            for c, sub in f:
+                entry["bodies"].append(c)
+                K._expect_kind(sub, True, f"payload of rank {self.order[level]} at {prefix + [c]}")
+                if level + 2 == len(self.order):
+                    if self.count >= len(self.b):
+                        raise Violation("bodies", f"the loops above N ran more bodies than N fibers are stored "
+                                        f"({len(self.b)}) at {prefix + [c]}")
+                    self.cur_a = sub
+                    self.count += 1
+                    self._instance(self.count - 1, prefix + [c], log)
+                else:
+                    loop(sub, level + 1, prefix + [c])
+                if level == 0 and on_outer_body is not None:
+                    on_outer_body()
+
+        loop(self.A.getRoot(), 0, [])
 
 
 # ---------------------------------------------------------------------------
@@ -525,6 +632,8 @@ def run_session(prog, threshold, prefix, consumable, prereg, consume):
     Metrics.beginCollect(prefix)
     try:
         Metrics.setNumCachedUses(threshold)
+        for r, shape in getattr(prog, "assoc", []):
+            Metrics.associateShape(r, tuple(shape))
         for r, ty in keys:
             Metrics.trace(r, type_=ty)
             if consumable:
@@ -648,6 +757,17 @@ def _match_trace(trace, expected, tolerant):
     return None
 
 
+def _lin(prog, level, c):
+    """The trace column of a coordinate of loop level `level`: tuple coordinates of a flattened rank
+    appear as one integer (row-major within the associated shape)."""
+    shape = getattr(prog, "flat", {}).get(prog.order[level]) if isinstance(c, tuple) else None
+    return c if shape is None else linearise(c, shape)
+
+
+def _lin_prefix(prog, prefix):
+    return [_lin(prog, lv, c) for lv, c in enumerate(prefix)]
+
+
 def check_session(prog, ses, cfg, rec, where):
     """Everything that is asserted about the traces of the main session."""
     order = prog.order
@@ -714,7 +834,8 @@ def check_session(prog, ses, cfg, rec, where):
 
     # -- iter: one row per body
     for r in prog.traced:
-        exp = [(i.entry["prefix"], ("exact", [(c, p, p) for c, p in i.iter_rows], False))
+        exp = [(_lin_prefix(prog, i.entry["prefix"]),
+                ("exact", [(_lin(prog, i.entry["level"], c), p, p) for c, p in i.iter_rows], False))
                for i in insts if i.entry["rank"] == r]
         msg = _match_trace(traces[(r, "iter")], exp, False)
         if msg:
@@ -742,10 +863,11 @@ def check_session(prog, ses, cfg, rec, where):
                 if role is None or role.rank != r:
                     # an instance whose loop has no such role expects no rows
                     continue
+                pre = _lin_prefix(prog, i.entry["prefix"])
                 if role.loose is not None:
-                    out.append((i.entry["prefix"], ("loose", role.loose["read" if attr == "rows" else "write"])))
+                    out.append((pre, ("loose", role.loose["read" if attr == "rows" else "write"])))
                 else:
-                    out.append((i.entry["prefix"], ("exact", getattr(role, attr), role.p11)))
+                    out.append((pre, ("exact", getattr(role, attr), role.p11)))
             return out
 
         def compat(key, label, tolerant):
@@ -982,6 +1104,43 @@ def check_opnest(case, rec):
     rec.cls("project-interval", bool(nest["proj"]) and nest["proj"]["interval"] is not None)
 
 
+@st.composite
+def flat_cases(draw):
+    op = draw(st.sampled_from(["iter", "and", "lshift", "lf", "lshift_and", "lshift_lf", "iter", "lshift"]))
+    S = draw(st.sampled_from([2, 3, 4, 5]))
+    depth = draw(st.sampled_from([0, 0, 1]))
+    shape = ([draw(st.sampled_from([2, 3]))] if depth else []) + [draw(st.sampled_from([2, 3, 4])),
+                                                                  draw(st.sampled_from([2, 3]))]
+    tree = draw(K.operand_trees(shape + [S], floats=False))
+    insts = []
+    for _ in range(draw(st.sampled_from([1, 2, 3]))):
+        inst = {}
+        if op in ("and", "lf", "lshift_and", "lshift_lf"):
+            inst["b"] = draw(leaf_elems(S))
+        if op.startswith("lshift"):
+            inst["plan"] = [[draw(st.sampled_from(["add", "add", "assign", "leave", "zero"])),
+                             draw(st.sampled_from([1, -1, 2]))] for _ in range(S)]
+        insts.append(inst)
+    nest = {"op": op, "shape": S, "flat": {"depth": depth, "shape": shape, "tree": tree}, "inst": insts}
+    if op.startswith("lshift"):
+        nest["z"] = draw(leaf_elems(S, p_empty=3))
+        nest["z_shared"] = draw(st.sampled_from([True, True, False]))
+    return {"nest": nest, "cfg": draw(configs(depth + 2))}
+
+
+def check_flat(case, rec):
+    nest, cfg = case["nest"], case["cfg"]
+    where = f"flattened nest={nest}; cfg={cfg}"
+    prog, ses, insts, traces = check_program(lambda: FlatProgram(nest), cfg, rec, where)
+    classify(rec, prog, ses, insts, traces)
+    rec.cls("op-" + nest["op"])
+    rec.cls("flattened-rank-in-the-middle", nest["flat"]["depth"] == 1)
+    mk = prog.levels["MK"]
+    rec.cls("inner-rows-below-tuple-coordinate",
+            any(t.rows for (r, ty), t in traces.items() if prog.levels[r] > mk))
+    rec.cls("distinct-tuples>=2", len({tuple(t) for e in ses.log if e["rank"] == "MK" for t in e["bodies"]}) >= 2)
+
+
 def _small_fibers(states):
     """every 1-level fiber over shape 3 whose coordinates are absent / hold one of `states`"""
     out = []
@@ -1009,8 +1168,9 @@ def enumerate_small(tier):
                                     "inst": [{"a": a, "b": b}]}, "cfg": cfg}
 
 
-PARTS = [Part("kernels", kernel_cases(), check_kernel, n_quick=700, n_thorough=5000),
-         Part("opnests", opnest_cases(), check_opnest, n_quick=900, n_thorough=6000),
+PARTS = [Part("kernels", kernel_cases(), check_kernel, n_quick=600, n_thorough=5000),
+         Part("opnests", opnest_cases(), check_opnest, n_quick=750, n_thorough=6000),
+         Part("flattened", flat_cases(), check_flat, n_quick=250, n_thorough=1500),
          Part("small", None, check_opnest, n_quick=0, n_thorough=0, enumerate=enumerate_small,
               exhaustive_note="a & b and z << a (thorough: also leader-follower) over ALL pairs of 1-level fibers of "
                               "shape 3 whose coordinates are absent / explicit zero / non-zero (27 x 27 pairs per "
